@@ -364,16 +364,20 @@ fn add_graph_constant(
     } else {
         // Constant data is stored inline in model
         let graph_node = if let Some(float_data) = constant.data_as_float_data() {
-            let const_data = constant_data_from_flatbuffers_vec(storage, float_data.data(), &shape);
+            let const_data =
+                constant_data_from_flatbuffers_vec(storage, float_data.data(), &shape, name)?;
             graph.add_constant(name, const_data)
         } else if let Some(int_data) = constant.data_as_int_32_data() {
-            let const_data = constant_data_from_flatbuffers_vec(storage, int_data.data(), &shape);
+            let const_data =
+                constant_data_from_flatbuffers_vec(storage, int_data.data(), &shape, name)?;
             graph.add_constant(name, const_data)
         } else if let Some(int8_data) = constant.data_as_int_8_data() {
-            let const_data = constant_data_from_flatbuffers_vec(storage, int8_data.data(), &shape);
+            let const_data =
+                constant_data_from_flatbuffers_vec(storage, int8_data.data(), &shape, name)?;
             graph.add_constant(name, const_data)
         } else if let Some(uint8_data) = constant.data_as_uint_8_data() {
-            let const_data = constant_data_from_flatbuffers_vec(storage, uint8_data.data(), &shape);
+            let const_data =
+                constant_data_from_flatbuffers_vec(storage, uint8_data.data(), &shape, name)?;
             graph.add_constant(name, const_data)
         } else {
             return Err(load_error!(
@@ -394,14 +398,30 @@ fn constant_data_from_flatbuffers_vec<'a, T: FromByteArray + flatbuffers::Follow
     storage: &Arc<ConstantStorage>,
     fb_vec: flatbuffers::Vector<'a, T>,
     shape: &[usize],
-) -> ConstantNodeData<T> {
+    name: Option<&str>,
+) -> Result<ConstantNodeData<T>, LoadError> {
+    // The shape and data come from the file and may not match.
+    let shape_error = |len: usize| {
+        load_error!(
+            GraphError,
+            name,
+            "length {} does not match shape {:?}",
+            len,
+            shape
+        )
+    };
     if let Some(elements) = cast_le_bytes(fb_vec.bytes()) {
+        let len = elements.len();
         let storage =
             ArcSlice::new(storage.clone(), elements).expect("storage does not contain data");
-        ArcTensorView::from_data(shape, storage).into()
+        let view = ArcTensorView::try_from_data(shape, storage).map_err(|_| shape_error(len))?;
+        Ok(view.into())
     } else {
         let data: Vec<T> = fb_vec.iter().collect();
-        ArcTensor::from_data(shape, Arc::new(data)).into()
+        let len = data.len();
+        let tensor =
+            ArcTensor::try_from_data(shape, Arc::new(data)).map_err(|_| shape_error(len))?;
+        Ok(tensor.into())
     }
 }
 
@@ -424,24 +444,30 @@ fn constant_data_from_storage_offset<T: LeBytes + FromByteArray>(
     offset: usize,
     name: Option<&str>,
 ) -> Result<ConstantNodeData<T>, LoadError> {
-    let n_elements: usize = shape.iter().product();
-    let byte_len = n_elements * std::mem::size_of::<T>();
-
-    let Some(bytes) = storage.data().get(offset..offset + byte_len) else {
+    // The shape comes from the file, so the element count, byte length and
+    // end offset may all overflow.
+    let byte_range = shape
+        .iter()
+        .try_fold(1usize, |len, &size| len.checked_mul(size))
+        .and_then(|n_elements| n_elements.checked_mul(std::mem::size_of::<T>()))
+        .and_then(|byte_len| Some(offset..offset.checked_add(byte_len)?));
+    let Some(bytes) = byte_range.and_then(|range| storage.data().get(range)) else {
         return Err(load_error!(GraphError, name, "invalid tensor data offset"));
     };
+    let shape_error = || load_error!(GraphError, name, "invalid shape {:?}", shape);
 
     if let Some(elements) = cast_le_bytes(bytes) {
         let storage =
             ArcSlice::new(storage.clone(), elements).expect("storage does not contain data");
-        let const_data: ConstantNodeData<T> = ArcTensorView::from_data(shape, storage).into();
-        Ok(const_data)
+        let view = ArcTensorView::try_from_data(shape, storage).map_err(|_| shape_error())?;
+        Ok(view.into())
     } else {
         let data: Vec<_> = bytes
             .chunks(std::mem::size_of::<T>())
             .map(|chunk| T::from_le_bytes(chunk.try_into().unwrap()))
             .collect();
-        Ok(ArcTensor::from_data(shape, Arc::new(data)).into())
+        let tensor = ArcTensor::try_from_data(shape, Arc::new(data)).map_err(|_| shape_error())?;
+        Ok(tensor.into())
     }
 }
 
